@@ -99,6 +99,8 @@ func (addr4Engine) Run(ctx *fw.Ctx, cs any) {
 						xid++
 						mac := []byte{0x02, byte(rng.Intn(256)), byte(rng.Intn(256)), byte(rng.Intn(256)), byte(rng.Intn(256)), byte(rng.Intn(256))}
 						p := pkt.Request4(xid, mac, mt, pkt.O4(55, 1, 3))
+						// the hardware type is not one of the table's dimensions: it must not matter
+						p.HType = []byte{1, 1, 6, 1, 15, 32, 255, 0}[rng.Intn(8)]
 						p.Gi = addrClass(rng, gc)
 						p.Ci = addrClass(rng, cc)
 						if bf {
